@@ -9,7 +9,7 @@
 //! C05 judges only: after a prune-flagged operation at seq N was ingested, no entry with seq < N is
 //! stored in that log at any later observation.
 
-use std::collections::{BTreeMap, HashSet};
+use std::collections::{BTreeMap, HashSet, VecDeque};
 
 use p2panda_core::{Hash, Operation, Signature, SigningKey, VerifyingKey};
 use p2panda_store::SqliteStore;
@@ -35,8 +35,10 @@ the touched log (every 4th delivery: all logs) is read back. Non-trivial = histo
 delivery, >= 1 rejected and >= 1 accepted operation; distinct = sequence of (author, log, seq, kind, outcome).";
 
 const RULE_C05: &str = "Histories: logs of 5-12 operations with 2-4 prune points, segments between prune points \
-delivered in permuted (biased to reversed) order, plus duplicates and late single prune-flagged \
-operations; small logs (<= 6 deliveries) in every permutation. After each delivery (ingest, then \
+delivered in permuted (biased to reversed) order, plus duplicates, late single prune-flagged \
+operations and, right after a prune point was applied (60 %), 1-4 rogue operations signed by the \
+log's own author (seq in {tip-1, tip, below the prune point}, flagged or not, backlink = tip / another \
+stored entry / the pruned true predecessor / random); small logs (<= 6 deliveries) in every permutation. After each delivery (ingest, then \
 prune_entries when the ingest of a prune-flagged operation completed) the log is read back. \
 Non-trivial = an older prune-flagged operation is delivered after a newer prune point was applied; \
 distinct = sequence of (author, log, seq, kind, outcome).";
@@ -51,6 +53,10 @@ enum Kind {
     ForgedResign,
     AuthorGap,
     AuthorBadBacklink,
+    /// C05 only: operation signed by the log's own author (who thereby equivocates) at a seq at or
+    /// below the tip, crafted against the stored state right after a prune point was applied.
+    RogueUnflagged,
+    RogueFlagged,
 }
 
 #[derive(Clone)]
@@ -370,6 +376,8 @@ struct Watch {
     prune_point: BTreeMap<([u8; 32], u64), u32>,
     /// Highest seq delivered so far per stream (for "out of order").
     max_delivered: BTreeMap<usize, u32>,
+    /// Ids of the author-signed rogue operations crafted during this run (C05).
+    rogue: HashSet<Hash>,
 }
 
 #[allow(clippy::too_many_arguments)]
@@ -397,10 +405,11 @@ async fn observe_log(
     if mode == Mode::C05 {
         if let Some(p) = watch.prune_point.get(&k) {
             if let Some(e) = entries.iter().find(|e| e.header.seq_num < *p) {
-                let sig = if e.header.extensions.prune {
-                    "C05:stored-below-prune-point:older-prune-flagged-op"
-                } else {
-                    "C05:stored-below-prune-point:unflagged-op"
+                let sig = match (watch.rogue.contains(&e.hash), e.header.extensions.prune) {
+                    (true, true) => "C05:stored-below-prune-point:rogue-flagged-op",
+                    (true, false) => "C05:stored-below-prune-point:rogue-unflagged-op",
+                    (false, true) => "C05:stored-below-prune-point:older-prune-flagged-op",
+                    (false, false) => "C05:stored-below-prune-point:unflagged-op",
                 };
                 rep.violation(
                     sig,
@@ -521,14 +530,18 @@ async fn run_history(
         height: BTreeMap::new(),
         prune_point: BTreeMap::new(),
         max_delivered: BTreeMap::new(),
+        rogue: HashSet::new(),
     };
     let mut st = RunStats::default();
+    let mut rogue_rng = Rng::new(vh_common::hash_of(&tag.to_string()) ^ 0x0C05_0C05);
+    let mut queue: VecDeque<Item> = order.iter().map(|&ix| hist.items[ix].clone()).collect();
+    let mut step = 0usize;
     let mut vks: Vec<VerifyingKey> = hist.authors.iter().map(|a| a.verifying_key()).collect();
     vks.push(hist.attacker.verifying_key());
     let author_idx = |vk: &VerifyingKey| vks.iter().position(|v| v == vk).unwrap_or(255) as u8;
 
-    for (step, &ix) in order.iter().enumerate() {
-        let it = &hist.items[ix];
+    while let Some(it) = queue.pop_front() {
+        let it = &it;
         let op = &it.op;
         let h = &op.header;
         let k = (*h.verifying_key.as_bytes(), h.extensions.log);
@@ -569,6 +582,18 @@ async fn run_history(
                     model.prune(op);
                     let p = watch.prune_point.entry(k).or_insert(h.seq_num);
                     *p = (*p).max(h.seq_num);
+                    // C05: right after a prune point was applied, the log's author delivers rogue
+                    // operations crafted against the stored state.
+                    if mode == Mode::C05
+                        && !matches!(it.kind, Kind::RogueFlagged | Kind::RogueUnflagged)
+                        && rogue_rng.chance(0.6)
+                    {
+                        for r in craft_rogues(&mut rogue_rng, hist, &model, &watch, op, it.stream).into_iter().rev() {
+                            watch.rogue.insert(r.op.hash);
+                            rep.bump("rogue_ops_crafted", 1);
+                            queue.push_front(r);
+                        }
+                    }
                 }
                 Ok(Err(e)) | Err(e) => rep.inconclusive(format!("prune_entries failed: {e}")),
             }
@@ -609,7 +634,7 @@ async fn run_history(
         }
 
         // Observe: the touched log every step, everything every 4th step and at the end.
-        let full = step % 4 == 3 || step + 1 == order.len();
+        let full = step % 4 == 3 || queue.is_empty();
         if full {
             for vk in &vks {
                 for l in &hist.logs {
@@ -620,8 +645,81 @@ async fn run_history(
             observe_log(rep, mode, store, &model, &mut watch, &h.verifying_key, h.extensions.log, &hist.logs, &witness)
                 .await;
         }
+        step += 1;
     }
     st
+}
+
+/// Rogue operations by the author of `applied` (a prune point that was just ingested and applied):
+/// seq in {tip-1, tip, anything below the highest applied prune point}, with or without prune flag,
+/// backlink = hash of the tip / of another stored entry / of the true (possibly pruned) predecessor
+/// / a random hash. All well-formed and correctly signed; none of them may end up below the prune
+/// point.
+fn craft_rogues(
+    rng: &mut Rng,
+    hist: &History,
+    model: &Model,
+    watch: &Watch,
+    applied: &Operation<ExtS>,
+    stream: usize,
+) -> Vec<Item> {
+    let vk = applied.header.verifying_key;
+    let log = applied.header.extensions.log;
+    let k = (*vk.as_bytes(), log);
+    let Some(sk) = hist.authors.iter().find(|a| a.verifying_key() == vk) else {
+        return Vec::new();
+    };
+    let Some(stored) = model.logs.get(&k) else {
+        return Vec::new();
+    };
+    let Some((tip_seq, tip)) = stored.iter().next_back().map(|(s, e)| (*s, e.hash)) else {
+        return Vec::new();
+    };
+    let p = watch.prune_point.get(&k).copied().unwrap_or(applied.header.seq_num);
+    let others: Vec<Hash> = stored.values().map(|e| e.hash).filter(|h| *h != tip).collect();
+    let mut out = Vec::new();
+    let mut push = |rng: &mut Rng, seq: u32, flagged: bool, link: u64| {
+        let backlink = if seq == 0 {
+            None
+        } else {
+            Some(match link {
+                0 => tip,
+                1 => others.first().copied().unwrap_or(tip),
+                2 => hist
+                    .items
+                    .iter()
+                    .find(|i| {
+                        i.kind == Kind::Honest
+                            && i.op.header.verifying_key == vk
+                            && i.op.header.extensions.log == log
+                            && i.op.header.seq_num + 1 == seq
+                    })
+                    .map(|i| i.op.hash)
+                    .unwrap_or(tip),
+                _ => Hash::digest(rng.bytes(16)),
+            })
+        };
+        let body = rng.bytes(12);
+        out.push(Item {
+            op: build_op(sk, seq, backlink, Some(&body), ExtS::make(log, flagged)),
+            kind: if flagged { Kind::RogueFlagged } else { Kind::RogueUnflagged },
+            stream,
+        });
+    };
+    // The sharpest one: one below the tip, unflagged, linking to the tip itself.
+    if tip_seq >= 1 && rng.bool() {
+        push(rng, tip_seq - 1, false, 0);
+    }
+    for _ in 0..1 + rng.below(3) {
+        let seq = match rng.below(3) {
+            0 => tip_seq.saturating_sub(1),
+            1 => tip_seq,
+            _ => rng.below(p.max(1) as u64) as u32,
+        };
+        let (flagged, link) = (rng.bool(), rng.below(4));
+        push(rng, seq, flagged, link);
+    }
+    out
 }
 
 fn close(rep: &mut Local, mode: Mode, st: &RunStats) {
